@@ -33,7 +33,7 @@ RULE = ("PIN sweep: the compared secret at boundary values (0000, 0001, 9999) an
         "wrong PIN, dropped reply, garbage frame/body, each required field missing, disconnect), plus the fault-free "
         "run; non-trivial = a fault was injected after at least one successful reply or the run is fault-free; "
         "initial state: (service.credentials, settings credentials) over {none, A, B}^2 - quick tier: NN and AA in "
-        "full, one fault per await point (alternating connection/pairing class) for NA, AN, AB and one seed-chosen "
+        "full (mrp, airplay-hap: AA only; raop-hap: NN only), one fault per await point (alternating connection/pairing class) for NA, AN, AB and one seed-chosen "
         "other combination; thorough: all nine in full; malformed VALUES of every inner field (empty, proper prefix, "
         "extended; edited in the sealed plaintext and, for identifier / long-term key, reported consistently by the "
         "device); operation sequences on one handler (pin() twice, finish() after a failed finish(), begin() twice; "
@@ -1341,6 +1341,10 @@ def run(ctx, only=None):
             if only is None and not ctx.thorough and prior not in ("NN", "AA", "NA", "AN", "AB", extra):
                 continue
             full = ctx.thorough or prior in ("NN", "AA")
+            if not ctx.thorough and (name, prior) in (("raop-hap", "AA"), ("airplay-hap", "NN"), ("mrp", "NN")):
+                # quick tier: same script enumerated in full with the other initial state (mrp AA,
+                # airplay-hap AA) / by the same handler class (raop-hap NN): one fault per await point
+                full = False
             script = script_name(name, prior)
             if only is not None and only.get("config") is not None:
                 fault = None if only["index"] is None else (only["index"], only["kind"], only["variant"])
@@ -1371,6 +1375,7 @@ def run(ctx, only=None):
             # --- fault-free run (also the recon of the fault space): trace, applicability, success
             case, obs = evaluate(ctx, name, prior, None, None)
             base, faults = fault_space(name, prior, None, base=obs)
+            BASES[(name, script_name(name, prior))] = base
             ctx.case(["free", name, prior], True, sample={"handler": name, "prior": prior, "events": obs.get("events")})
             ctx.note("handler:" + name)
             ctx.note("initial:" + prior)
@@ -1393,6 +1398,22 @@ def run(ctx, only=None):
                 # faults inside sealed sub-messages: quick tier with stored credentials (AA) only,
                 # thorough tier for the initial states NN, AA, AB, BA
                 faults = [f for f in faults if not str(f[2]).startswith(("inner", "device:"))]
+            if not ctx.thorough and prior == "NN":
+                # wrong-type containers: quick tier with stored credentials (AA) only
+                faults = [f for f in faults if not str(f[2]).startswith(("root:", "pd:", "body:text"))]
+            if not ctx.thorough:
+                # quick tier: of the stale-plaintext value edits one seed-chosen shape per inner field
+                vrng = ctx.rng.fork("shapes", name, prior)
+                shape_of = {}
+                def keep_shape(f):
+                    v = str(f[2])
+                    if not (v.startswith("inner:") and "=" in v):
+                        return True
+                    field = (f[0], v.split("=")[0])
+                    if field not in shape_of:
+                        shape_of[field] = vrng.choice(SHAPES)
+                    return v.endswith("=" + shape_of[field])
+                faults = [f for f in faults if keep_shape(f)]
             # error codes x BackOff item: all 14 per TLV reply in the thorough tier for NN and AA; otherwise
             # per TLV reply the documented back-off reply (Error=BackOff + BackOff item) and one seed-chosen other
             if not (ctx.thorough and prior in ("NN", "AA")):
@@ -1402,7 +1423,8 @@ def run(ctx, only=None):
                     codes = [f for f in faults if f[0] == i and is_code_variant(f[1], f[2])]
                     if ctx.thorough or prior == "AA":
                         keep.append(next(f for f in codes if f[2] == "tlv:BackOff+backoff"))
-                        keep.append(crng.choice([f for f in codes if f[2] != "tlv:BackOff+backoff"]))
+                        if ctx.thorough or (i + crng.randrange(2)) % 2 == 0:
+                            keep.append(crng.choice([f for f in codes if f[2] != "tlv:BackOff+backoff"]))
                     elif prior != "NN":
                         keep.append(crng.choice(codes))
                 faults = [f for f in faults if not is_code_variant(f[1], f[2]) or f in keep]
@@ -1438,6 +1460,16 @@ def run(ctx, only=None):
         ctx.validated()
         if model != impl:
             ctx.disagree(dict(case, line=line), impl, ans, where=what)
+
+
+BASES = {}     # (handler, script) -> observation of a fault-free run (reply labels), filled by run()
+
+
+def recon(ctx, name, prior):
+    key = (name, script_name(name, prior))
+    if key not in BASES:
+        BASES[key] = run_one(name, prior, None, ctx.rng.fork(name, prior, "recon"))
+    return BASES[key]
 
 
 PIN_HANDLERS = ["mrp", "companion", "airplay-hap", "raop-hap"]   # legacy AirPlay: recorded transcript, one PIN
@@ -1476,7 +1508,7 @@ def pin_sweep(ctx, lines, pending):
     for name in PIN_HANDLERS:
         for prior in (("NN", "AA", "BA") if ctx.thorough else ("AB",)):
             script = script_name(name, prior)
-            base = run_one(name, prior, None, ctx.rng.fork(name, prior, "recon"))
+            base = recon(ctx, name, prior)
             proof = next((i for i, r in enumerate(base.get("replies", []), 1) if PROOF_REPLY.get(r.label)), None)
             if proof is None:
                 ctx.disagree({"handler": name}, "no proof reply in the real exchange", "proof index expected", where="pins")
@@ -1584,7 +1616,7 @@ def config_sweep(ctx, lines, pending):
         for i, n in enumerate(names):
             plans = [None]
             if ctx.thorough or i == 1:
-                base = run_one(name, prior, None, rng.fork(name, "recon"))
+                base = recon(ctx, name, prior)
                 proof = next((j for j, r in enumerate(base.get("replies", []), 1) if PROOF_REPLY.get(r.label)), None)
                 if proof:
                     plans.append((proof, "wrongpin", "-"))
